@@ -327,6 +327,16 @@ static int vr_compare (VArena * X, VArena * R, const VRunCfg * c, OrcExecutor * 
         snprintf (msg, cap, "accumulator %d differs: got 0x%08x want 0x%08x", k, ex_x->accumulators[k], ex_r->accumulators[k]);
         return 3;
       }
+      /* the two accessors a caller reads an accumulator with must deliver that value */
+      if (ex_x->program && ex_x->program->vars[ORC_VAR_A1 + k].name) {
+        int by_index = orc_executor_get_accumulator (ex_x, ORC_VAR_A1 + k);
+        int by_name = orc_executor_get_accumulator_str (ex_x, ex_x->program->vars[ORC_VAR_A1 + k].name);
+        if (by_index != ex_x->accumulators[k] || by_name != ex_x->accumulators[k]) {
+          snprintf (msg, cap, "accumulator %d read through the API: orc_executor_get_accumulator gives 0x%08x, orc_executor_get_accumulator_str (\"%s\") gives 0x%08x, the executor holds 0x%08x",
+              k, by_index, ex_x->program->vars[ORC_VAR_A1 + k].name, by_name, ex_x->accumulators[k]);
+          return 3;
+        }
+      }
     }
   }
   return 0;
